@@ -23,7 +23,7 @@ import (
 
 func init() {
 	register("C04", "vouchers created by the real DI and ExtendVoucher for the six key kinds × X509/X5Chain/COSE encodings × chain "+
-		"length 0..4; mutants: single-bit flips over the whole encoding (40 sampled in quick; every bit of short vouchers, 3000 sampled bits of long ones in thorough), every bound "+
+		"length 0..4; mutants: single-bit flips over the whole encoding (40 sampled in quick; every bit of short vouchers, 600 sampled bits of long ones in thorough), every bound "+
 		"field altered through the Go structure (header fields, header MAC, certificate chain, entry payload fields, protected "+
 		"header, signature), unbound fields (outer version, unprotected headers), entry swap/duplication/removal, cross-voucher "+
 		"splices of header and entries, wrong signers and wrong-kind next owners offered to ExtendVoucher; library verification "+
@@ -405,11 +405,11 @@ func c04(x *runCtx) {
 		for _, m := range c04Structural(r, b, bases) {
 			c04Check(x, b, m.enc, m.what)
 		}
-		// quick: 40 random bits per voucher; thorough: every bit of the short vouchers, 3000 random bits of the long ones
+		// quick: 40 random bits per voucher; thorough: every bit of the short vouchers, 600 random bits of the long ones
 		// (a voucher with RSA-3072 certificate chains and five entries has 100 000 bits, each flip costs its signature checks)
 		nbits, every := 40, false
 		if x.thorough() {
-			nbits, every = 3000, len(b.enc)*8 <= 3000
+			nbits, every = 600, len(b.enc)*8 <= 3000
 			if every {
 				nbits = len(b.enc) * 8
 			}
